@@ -396,3 +396,10 @@ impl ColumnLocator {
         }
     }
 }
+
+#[cfg(locustdb_verif)]
+impl Partition {
+    pub fn verif_table_name(&self) -> &str {
+        &self.table_name
+    }
+}
